@@ -50,7 +50,7 @@ package hook
 // ---- C06: onStartup hooks run in ascending ORDER, alphabetically among equal ORDER ----------
 
 // the comparator handed to the sort: by onStartup order only
-//@ func (*Manager).GetHooksInOrder$1
+//@ func (*Manager).GetHooksInOrder$[hooks]
 //@   prop C06
 //@   requires 0 <= i && i < len(hooks) && 0 <= j && j < len(hooks)
 //@   requires hooks[i] != nil && hooks[i].Config != nil && hooks[i].Config.OnStartup != nil && hooks[j] != nil && hooks[j].Config != nil && hooks[j].Config.OnStartup != nil
